@@ -38,7 +38,7 @@ def run_e2e(ctx, n_perm_progs, n_gen, tag):
         jobs.append(("rename", dirs, "a%d.rb" % i, t, None))
     # (b) generated hierarchies: unsplit vs split/reordered
     for g in range(n_gen):
-        classes = cfggen.gen_classes(rng, rng.randint(2, 4))
+        classes = cfggen.gen_classes(rng, rng.randint(2, 4), frames=(g % 2 == 1))
         prog = cfggen.program_for(rng, classes)
         variants = []
         unsplit = {"zz_%s.json" % c["class"].lower(): c for c in classes}
